@@ -197,7 +197,11 @@ class GeminiServerProtocol(asyncio.Protocol):
             return
 
         # Extract client certificate if present
-        client_cert = self.get_peer_certificate()
+        try:
+            client_cert = self.get_peer_certificate()
+        except ValueError as e:
+            self._send_error_response(StatusCode.CERT_NOT_VALID, str(e))
+            return
         client_cert_fingerprint: str | None = None
         if client_cert:
             from ..security.certificates import get_certificate_fingerprint
@@ -534,11 +538,16 @@ class GeminiServerProtocol(asyncio.Protocol):
         try:
             # Get certificate in DER binary format
             der_cert = ssl_object.getpeercert(binary_form=True)
-            if der_cert:
-                return x509.load_der_x509_certificate(der_cert)
         except Exception:
-            # If we can't load the certificate, return None
             return None
+
+        if der_cert:
+            try:
+                return x509.load_der_x509_certificate(der_cert)
+            except Exception as e:
+                # A certificate WAS presented: it must not be mistaken for "no
+                # certificate" (the middleware would see fingerprint None)
+                raise ValueError("Client certificate cannot be read") from e
 
         return None
 
@@ -567,7 +576,11 @@ class GeminiServerProtocol(asyncio.Protocol):
             return
 
         # Extract client certificate if present
-        client_cert = self.get_peer_certificate()
+        try:
+            client_cert = self.get_peer_certificate()
+        except ValueError as e:
+            self._send_error_response(StatusCode.CERT_NOT_VALID, str(e))
+            return
         if client_cert:
             from ..security.certificates import get_certificate_fingerprint
 
